@@ -5,6 +5,19 @@ OPEN lists the stated goals not yet proved; ASSUME the assumptions of the claim.
 
 THEOREMS = {
     "C01": {
+        "JP.Props.C14": [
+            "JP.C14.applyOps_refines_ensure", "JP.C14.apply_refines_ensure",
+        ],
+        "JP.Props.C01limit": [
+            "JP.C01.applyOp_refines_lim", "JP.C01.applyOps_refines_lim", "JP.C01.apply_bytes_refines_lim",
+            "JP.C01.c01_never_violated_lim",
+        ],
+        "JP.Props.C01bytes": [
+            "JP.C01.parse_wfc", "JP.C01.cstOK_of_wfc", "JP.C01.qk_of_utf8",
+            "JP.C01.names_utf8", "JP.C01.tx_decodeRoot", "JP.C01.tokens_utf8",
+            "JP.C01.apply_bytes_tree", "JP.C01.apply_bytes_refines_ops", "JP.C01.apply_bytes_refines",
+            "JP.C01.apply_bytes_refines'", "JP.C01.c01_never_violated", "JP.C01.c05_never_violated",
+        ],
         "JP.Props.C01": [
             "JP.C01.applyOp_refines", "JP.C01.applyOps_refines_inv", "JP.C01.applyOps_refines", "JP.C01.applyOps_refines_acc",
             "JP.C01.decodeRoot_spec", "JP.C01.apply_refines", "JP.C01.move_eq_remove_add", "JP.C01.test_absent_is_null",
@@ -36,12 +49,30 @@ THEOREMS = {
         ],
     },
     "C04": {
+        "JP.Props.C04legacy": [
+            "JP.C04.legacy_decodePatch_no_panic", "JP.C04.legacy_apply_no_panic", "JP.C04.legacy_decode_apply_no_panic",
+            "JP.C04.legacy_applyOps_no_panic", "JP.C04.legacy_mergePatch_no_panic", "JP.C04.legacy_mergeMergePatches_no_panic",
+            "JP.C04.legacy_createMergePatch_no_panic", "JP.C04.legacy_equal_total", "JP.C04.legacy_merge_no_panic",
+        ],
         "JP.Props.C04": [
             "JP.C04.decodePatch_no_panic", "JP.C04.mergePatch_no_panic", "JP.C04.mergeMergePatches_no_panic", "JP.C04.createMergePatch_no_panic",
             "JP.C04.equal_total", "JP.C04.apply_no_panic_noensure", "JP.C04.apply_no_panic", "JP.C04.applyOps_no_panic",
         ],
     },
     "C05": {
+        "JP.Props.C02bytes": [
+            "JP.C02.mergePatch_bytes",
+        ],
+        "JP.Props.C01limit": [
+            "JP.C01.c05_never_violated_lim",
+        ],
+        "JP.Props.C01bytes": [
+            "JP.C01.apply_bytes_refines", "JP.C01.c05_never_violated",
+        ],
+        "JP.Props.C05impl": [
+            "JP.C05.impl_transfer", "JP.C05.impl_order", "JP.C05.impl_frame",
+            "JP.C05.impl_literals", "JP.C05.impl_empty_patch",
+        ],
         "JP.Props.C05spec": [
             "JP.C05.empty_patch_identity", "JP.C05.test_identity", "JP.C05.keys_set_present", "JP.C05.keys_set_absent",
             "JP.C05.keys_erase", "JP.C05.lookup_set_self", "JP.C05.lookup_set_other", "JP.C05.lookup_erase_other",
@@ -81,6 +112,15 @@ THEOREMS = {
         ],
     },
     "C08": {
+        "JP.Props.C01limit": [
+            "JP.C08.classified_lim", "JP.C01.c08_never_violated_lim",
+        ],
+        "JP.Props.C08class": [
+            "JP.C08.opAdd_class", "JP.C08.opRemove_class", "JP.C08.opReplace_class",
+            "JP.C08.opMove_class", "JP.C08.opTest_class", "JP.C08.opCopy_class",
+            "JP.C08.applyOp_class", "JP.C08.classified", "JP.C08.classified_bytes",
+            "JP.C08.c08_never_violated",
+        ],
         "JP.Props.C08": [
             "JP.C08.suffix_irrelevant", "JP.C08.suffix_irrelevant_bytes", "JP.C08.prefix_ok_of_ok", "JP.C08.err_of_prefix_err",
             "JP.C08.testFailed_only_from_test", "JP.C08.copySize_only_from_copy", "JP.C08.testFailed_in_patch", "JP.C08.copySize_in_patch",
@@ -105,12 +145,23 @@ THEOREMS = {
         ],
     },
     "C11": {
+        "JP.Props.C16": [
+            "JP.C16.scanner_iff",
+        ],
         "JP.Props.C11": [
             "JP.C11.lookupLastC_valueOf", "JP.C11.decodeOps_iff", "JP.C11.decodePatch_iff", "JP.C11.decodePatch_total",
             "JP.C11.decodePatch_err_or_ok", "JP.C11.accessors", "JP.C11.accessors_text",
         ],
     },
     "C12": {
+        "JP.Props.C01limit": [
+            "JP.C01.apply_bytes_refines_lim", "JP.C01.c12_never_violated_lim",
+        ],
+        "JP.Props.C12legacy": [
+            "JP.C12.legacy_zero_disables", "JP.C12.legacy_others_dont_count", "JP.C12.legacy_copy_adds_size",
+            "JP.C12.legacy_copy_limit_exact", "JP.C12.legacy_copy_within_limit", "JP.C12.legacy_copy_ok_within",
+            "JP.C12.legacy_running_total", "JP.C12.legacy_running_total_within", "JP.C12.legacy_patch_limit_exact",
+        ],
         "JP.Props.C12": [
             "JP.C12.zero_disables", "JP.C12.others_dont_count", "JP.C12.copy_adds_size", "JP.C12.copy_limit_exact",
             "JP.C12.copy_within_limit", "JP.C12.copy_ok_within", "JP.C12.running_total", "JP.C12.running_total_within",
@@ -118,6 +169,9 @@ THEOREMS = {
         ],
     },
     "C13": {
+        "JP.Props.C13impl": [
+            "JP.C13.impl_rewrite", "JP.C13.impl_rewrite_same",
+        ],
         "JP.Props.C13": [
             "JP.C13.rewrite", "JP.C13.rewrite_nolimit", "JP.C13.rewrite_apply", "JP.C13.others_unchanged",
             "JP.C13.unskipped_succeeds", "JP.C13.skipped_is_identity", "JP.C13.skipped_only_absent", "JP.C13.specSkipped_head",
@@ -132,6 +186,13 @@ THEOREMS = {
         ],
     },
     "C15": {
+        "JP.Props.C17codec": [
+            "JP.C17.indent_preserves", "JP.C17.indent_layout", "JP.C17.compact_spec",
+        ],
+        "JP.Props.C15apply": [
+            "JP.C15.apply_output_tree", "JP.C15.apply_output_clean", "JP.C15.apply_output_parses",
+            "JP.C15.apply_output_valid", "JP.C15.indent_is_indent_of_plain", "JP.C15.indent_succeeds",
+        ],
         "JP.Props.C15merge": [
             "JP.C15.doMergePatch_ok_shape", "JP.C15.doMerge_output_valid", "JP.C15.mergePatch_output_valid", "JP.C15.mergeMergePatches_output_valid",
             "JP.C15.doMerge_output_clean", "JP.C15.create_output_valid", "JP.C15.merge_output_valid",
@@ -143,6 +204,15 @@ THEOREMS = {
         ],
     },
     "C16": {
+        "JP.Props.C11": [
+            "JP.C11.decodePatch_iff",
+        ],
+        "JP.Props.C06bytes": [
+            "JP.C06.valid_eq_parse", "JP.C06.equal_malformed",
+        ],
+        "JP.Props.C17codec": [
+            "JP.C17.compact_spec", "JP.C17.indent_preserves", "JP.C17.parse_wfc",
+        ],
         "JP.Props.C16": [
             "JP.C16.scanner_iff", "JP.C16.compact_accepts", "JP.C16.indent_accepts", "JP.C16.valid_ws",
         ],
@@ -166,6 +236,30 @@ THEOREMS = {
             "JP.C20.run_ok_iff", "JP.C20.run_status", "JP.C20.run_fail_clean", "JP.C20.run_missing",
             "JP.C20.run_order_opt", "JP.C20.run_order", "JP.C20.run_order_fail", "JP.C20.run_no_files",
             "JP.C20.run_one_file",
+        ],
+    },
+    "C18": {
+        "JP.Props.C04legacy": [
+            "JP.C04.legacy_decode_apply_no_panic",
+        ],
+        "JP.Props.C18": [
+            "JP.C18.applyOps_refines", "JP.C18.apply_refines", "JP.C18.applyBytes_refines",
+            "JP.C18.decodeOp_nn", "JP.C18.applyBytes_refines_plain",
+        ],
+    },
+    "C19": {
+        "JP.Props.C03spec": [
+            "JP.C03.roundtrip", "JP.C03.empty_iff", "JP.C03.minimal_rec",
+        ],
+        "JP.Props.C19law": [
+            "JP.C19.composeLaw_holds",
+        ],
+        "JP.Props.C19": [
+            "JP.C19.merge_refines", "JP.C19.mergeDocs_refines", "JP.C19.pruneNulls_spec",
+            "JP.C19.doMergePatch_refines", "JP.C19.mergePatch_value", "JP.C19.mergeMerge_refines",
+            "JP.C19.mergeMergePatches_refines", "JP.C19.composition_law", "JP.C19.equal_trees",
+            "JP.C19.equal_iff_plain", "JP.C19.equal_iff_partial", "JP.C19.equal_texts",
+            "JP.C19.eqNC_iff",
         ],
     },
 }
